@@ -467,6 +467,11 @@ func (eval Evaluator) ScaleUpNew(op0 *rlwe.Ciphertext, scale rlwe.Scale) (opOut 
 // ScaleUp multiplies op0 by scale and sets its scale to its previous scale times scale returns the result in opOut.
 func (eval Evaluator) ScaleUp(op0 *rlwe.Ciphertext, scale rlwe.Scale, opOut *rlwe.Ciphertext) (err error) {
 
+	// The multiplication is carried out with a uint64: a fractional (or larger) scale cannot be applied exactly
+	if scale.Value.Cmp(new(big.Float).SetUint64(scale.Uint64())) != 0 {
+		return fmt.Errorf("cannot ScaleUp: scale must be an integer smaller than 2^64")
+	}
+
 	if err = eval.Mul(op0, scale.Uint64(), opOut); err != nil {
 		return fmt.Errorf("cannot ScaleUp: %w", err)
 	}
